@@ -11,8 +11,11 @@ Journal records (appended by the bodies and by the call / step sites inside them
     ("B", cid, pname, value)                a parameter was re-bound
     ("C", cid)                              a catching yield caught a thrown exception
     ("R", cid, value)                       right before a return (or falling off the end)
-    ("XS", m, excname)                      site: the call whose E is journal[m] ended by exception
-    ("XH", hidx, excname, at_yield)         site: stepping handle hidx propagated an exception
+    ("XS", m, excname, owner)               site (in the body of call `owner`): the call whose E is journal[m] ended by exception
+    ("YF", cid, m)                          right before `yield from`: the generator whose E will be journal[m] yields through call cid
+    ("RZ", cid)                             right before the body raises by itself
+    ("TH", hidx) / ("TE", hidx)             site: around generator.throw() on handle hidx (the first yield in between is throw()'s result)
+    ("XH", hidx, excname, at_yield, owner)  site: stepping handle hidx propagated an exception
     ("XC", hidx) / ("XD", hidx)             site: suspended handle closed / dropped (GeneratorExit at the yield)
     ("A", cid)                              right before an await suspension
     ("MU", cid, obj, copy)                  right before the container obj (bound to a parameter) is mutated in place; copy = its state before
